@@ -135,6 +135,26 @@ theorem ipc_data_after_eos (pr : IpcParams P O) (ctx : P) (b : Nat) (bs : Bytes)
     ipcFeed pr ⟨.finished, ctx⟩ (b :: bs) = (⟨.failed .eosData, ctx⟩, []) := by
   rw [ipc_refinement]; simp [runBytes, ipcStep, ipcStepNoBody, ipc_failed_absorb]
 
+/-- **Where the push decoder and the one-shot reader part ways (partial: one-shot clause).**
+`oneShot_eq_bytewise` makes the push decoder fed the whole input equal to itself fed byte by
+byte; the *pull* reader `StreamReader`, however, dispatches a message as soon as its metadata
+and body are read, while `StreamDecoder::decode` dispatches only inside
+`while !buffer.is_empty()`.  For a message whose `bodyLength` is 0 the body is complete with
+the last metadata byte, yet the model (as the code) stays in `Body` without output, and
+`finish()` then reports a truncated stream: a stream that ends — legally, without EOS marker —
+right after such a message loses it.  (Observed on the real code; reported, see
+`finding:ipc-pending-empty-body`.)  The message is dispatched by whatever byte comes next. -/
+theorem ipc_empty_body_pending_partial (pr : IpcParams P O) (ctx : P) (md : Bytes)
+    (hmd : 0 < md.length) (hp : pr.parseMeta md = some 0) :
+    ipcFeed pr ⟨.message md.length [], ctx⟩ md = (⟨.body md 0 [], ctx⟩, []) ∧
+    ipcFinish (⟨.body md 0 [], ctx⟩ : IpcState P) = .truncated ∧
+    (∀ b, (ipcStep pr ⟨.body md 0 [], ctx⟩ b).2 =
+      (bodyDone pr ctx md []).2 ++ (ipcStepNoBody pr (bodyDone pr ctx md []).1 b).2) := by
+  refine ⟨?_, rfl, ?_⟩
+  · rw [ipc_refinement, ipc_run_message pr ctx md.length md [] (by simpa using hmd) (by simp)]
+    simp [messageDone, hp]
+  · intro b; simp [ipcStep]
+
 example : ipcMarker = [255, 255, 255, 255] := by decide
 
 /-- non-trivial instance: marker + length 2 + 2 metadata bytes + 1 body byte, cut three ways -/
@@ -252,7 +272,7 @@ theorem blk_parses_block (cb sb data sync : Bytes) (c : Nat) (cs : List Bytes)
 
 example : runChunks blkFeed blkInit [[4, 6, 1], [2, 3, 9, 9, 9, 9, 9, 9, 9, 9], [], [9, 9, 9, 9, 9, 9, 9, 9]] =
     (blkInit, [⟨2, [1, 2, 3], List.replicate 16 9⟩]) :=
-  blk_parses_block [4] [6] [1, 2, 3] (List.replicate 16 9) 2 _ (by decide) (by decide) (by decide) (by decide)
+  blk_parses_block [4] [6] [1, 2, 3] (List.replicate 16 9) 2 _ (by decide) (by decide) (by decide) (by simp [IsPartition])
 
 /-! ## JSON `TapeDecoder` / `Decoder` -/
 
